@@ -55,6 +55,8 @@ def rx(e, S="self"):
         return "%s.%s.size" % (S, e[1])
     if k == "sum":
         return "%s.%s.sum" % (S, e[1])
+    if k == "prod":
+        return "%s.%s.product" % (S, e[1])
     if k == "dyn":
         return "%s.%s()" % (S, e[1])
     raise ValueError("rx " + repr(e))
